@@ -36,7 +36,7 @@ def build(cfg):
     zng = make_nan_tools()
 
     def extra(params):
-        if not inj or inj["origin"] == "update":
+        if not inj or inj["origin"] in ("update", "update_entry"):
             return 0.0
         a = params.eq_params["a"] if inj["origin"] in ("loss", "grad_eq") else params.nn_params.scale
         beyond = (a - inj["thr"]) * inj["sign"] > 0
@@ -69,10 +69,10 @@ def build(cfg):
         g = jinns.data.CubicMeshPDENonStatio(key=jax.random.PRNGKey(cfg["seed"]), n=cfg["nt"], nb=None, nt=cfg["nt"], omega_batch_size=cfg["bs"],
                                              omega_border_batch_size=None, temporal_batch_size=cfg["bs"], dim=1, min_pts=(0.0,), max_pts=(1.0,),
                                              tmin=0.0, tmax=1.0, cartesian_product=True)
-    P = Params(nn_params=u.init_params(), eq_params={"a": jnp.array(1.5), "b": jnp.array(0.5), "c": jnp.array(0.25)})
+    P = Params(nn_params=u.init_params(), eq_params={"a": jnp.array(1.5), "b": jnp.array(0.5), "c": jnp.array(0.25), "v": jnp.array([0.5, -0.5, 0.25])})
     dkcls = {"ode": jinns.parameters.DerivativeKeysODE, "statio": jinns.parameters.DerivativeKeysPDEStatio,
              "nonstatio": jinns.parameters.DerivativeKeysPDENonStatio}[kind]
-    dk = dkcls.from_str(P, dyn_loss=Params(nn_params=True, eq_params={"a": True, "b": True, "c": False}))
+    dk = dkcls.from_str(P, dyn_loss=Params(nn_params=True, eq_params={"a": True, "b": True, "c": False, "v": False}))
     if kind == "ode":
         L = jinns.loss.LossODE(u=u, dynamic_loss=Eq(), params=P, initial_condition=(0.0, 1.0), derivative_keys=dk)
     elif kind == "statio":
@@ -97,17 +97,20 @@ def build(cfg):
         opt = optax.adam(lr)
     else:
         opt = optax.chain(optax.clip(1.0), optax.scale_by_adam(), optax.scale_by_schedule(optax.piecewise_constant_schedule(-lr, {3: 0.5})))
-    if inj and inj["origin"] == "update":
+    if inj and inj["origin"] in ("update", "update_entry"):
         k = inj["k"]
+        one_entry = inj["origin"] == "update_entry"       # NaN in a single entry of a multi-entry leaf, every other leaf finite
 
         def init_fn(params):
             return jnp.zeros((), dtype=jnp.int32)
 
         def update_fn(updates, state, params=None):
             bad = state == k
+            if one_entry:
+                return eqx.tree_at(lambda t: t.eq_params["v"], updates, updates.eq_params["v"].at[1].set(jnp.where(bad, jnp.nan, 0.0))), state + 1
             return jax.tree_util.tree_map(lambda x: jnp.where(bad, jnp.nan, x), updates), state + 1
         opt = optax.chain(opt, optax.GradientTransformation(init_fn, update_fn))
-    tracked = Params(nn_params=None, eq_params={"a": True, "b": None, "c": None}) if cfg.get("track", True) else None
+    tracked = Params(nn_params=None, eq_params={"a": True, "b": None, "c": None, "v": None}) if cfg.get("track", True) else None
     validation = None
     v = cfg.get("validation")
     if v and v["type"] == "scripted":
